@@ -296,3 +296,76 @@ theorem filter_key_singleton {α : Type} (f : α → Nat) {cs : List α} {a : α
   simpa using filter_keys_of_sublist f hs hnd
 
 end Election
+
+namespace Election
+
+/-- If the reference connection `w` survives in `cs` and is present in the sub-multiset `R`, then
+whatever survives in `R` also survives in `cs`: partial elections never promote a connection
+that the full election would drop. -/
+theorem survivors_sub_of_winner {o : Ordering} (ho : o ≠ .eq) {cs R : List Conn} (hR : R.Sublist cs)
+    {w : Conn} (hw : w ∈ survivors o cs) (hwR : w ∈ R) :
+    ∀ x ∈ survivors o R, x ∈ survivors o cs := by
+  intro x hx
+  have hwR' : w ∈ survivors o R := by
+    -- `survivor_stable` is in Props; re-derive here from the membership characterisations
+    unfold survivors at hw ⊢
+    rw [mem_nonceC, mem_dirC] at hw ⊢
+    obtain ⟨⟨_, hdir⟩, hn⟩ := hw
+    refine ⟨⟨hwR, fun ⟨a, ha, haa⟩ ⟨b, hb, hbb⟩ => hdir ⟨a, hR.subset ha, haa⟩ ⟨b, hR.subset hb, hbb⟩⟩, ?_⟩
+    intro c' hc' hne
+    by_cases hmem : c' ∈ dirC o cs
+    · exact hn c' hmem hne
+    · exfalso
+      rw [mem_dirC] at hc' hmem
+      obtain ⟨hc'R, hdirR⟩ := hc'
+      have hc'cs := hR.subset hc'R
+      simp only [hc'cs, true_and, Classical.not_imp] at hmem
+      obtain ⟨hx1, hy1, hbad⟩ := hmem
+      have hcdir := hdir hx1 hy1
+      cases o with
+      | eq => exact ho rfl
+      | lt =>
+        simp only [forall_const, reduceCtorEq, false_imp_iff, and_true] at hbad hcdir
+        have hc'f : c'.aInit = false := by simpa using hbad
+        have := hdirR ⟨w, hwR, hcdir⟩ ⟨c', hc'R, hc'f⟩
+        simp [hc'f] at this
+      | gt =>
+        simp only [forall_const, reduceCtorEq, false_imp_iff, true_and] at hbad hcdir
+        have hc't : c'.aInit = true := by simpa using hbad
+        have := hdirR ⟨c', hc'R, hc't⟩ ⟨w, hwR, hcdir⟩
+        simp [hc't] at this
+  -- same direction and same nonce as `w` within R
+  obtain ⟨d, hd⟩ := survivors_same_dir ho R
+  have hxa : x.aInit = w.aInit := by rw [hd x hx, hd w hwR']
+  have hxn : nz x.nonce = nz w.nonce := survivors_same_nonce o R x hx w hwR'
+  have hxR : x ∈ R := (survivors_sublist o R).subset hx
+  unfold survivors at hw ⊢
+  rw [mem_nonceC, mem_dirC] at hw ⊢
+  obtain ⟨⟨_, hdir⟩, hn⟩ := hw
+  refine ⟨⟨hR.subset hxR, fun h1 h2 => ?_⟩, ?_⟩
+  · rw [hxa]; exact hdir h1 h2
+  · intro c' hc' hne
+    have hwn := hn c' hc' hne
+    have : x.nonce = w.nonce := by
+      have h1 : nz w.nonce = some w.nonce := nz_eq_some.mpr ⟨hwn.1, rfl⟩
+      rw [h1] at hxn
+      exact (nz_eq_some.mp hxn).2
+    rw [this]; exact hwn
+
+end Election
+
+namespace Election
+
+theorem nodup_map_inj' {α : Type} (f : α → Nat) {l : List α} (h : (l.map f).Nodup) {x y : α}
+    (hx : x ∈ l) (hy : y ∈ l) (hxy : f x = f y) : x = y := by
+  induction l with
+  | nil => simp at hx
+  | cons a t ih =>
+    simp only [List.map_cons, List.nodup_cons, List.mem_map, not_exists, not_and] at h
+    rcases List.mem_cons.mp hx with rfl | hx' <;> rcases List.mem_cons.mp hy with rfl | hy'
+    · rfl
+    · exact absurd hxy.symm (h.1 y hy')
+    · exact absurd hxy (h.1 x hx')
+    · exact ih h.2 hx' hy'
+
+end Election
